@@ -3,6 +3,7 @@ package main
 import (
 	"encoding/json"
 	"fmt"
+	"iter"
 	"maps"
 	"math/rand/v2"
 	"reflect"
@@ -428,6 +429,23 @@ func (e *pmapExec) do(o *Out, f []string) string {
 		}
 		if !eqKVs(got, want) {
 			o.Fail("C17", "wrong-result", map[string]string{"op": f[0]}, fmt.Sprintf("m%d.%s(%s): got %s want %s", i, f[0], f[2], showKVs(got), showKVs(want)))
+		}
+		// the sequence a (persistent) map hands out is a value: ranging over it again, also after an
+		// early break, yields the same elements
+		for _, seq := range []iter.Seq2[string, int]{e.maps[i].All(), e.maps[i].Prefix(k), e.maps[i].LowerBound(k)} {
+			var first, again []kv
+			for a, b := range seq {
+				first = append(first, kv{a, b})
+			}
+			for range seq {
+				break
+			}
+			for a, b := range seq {
+				again = append(again, kv{a, b})
+			}
+			if !eqKVs(first, again) {
+				o.Fail("C17", "sequence-not-reusable", map[string]string{"op": f[0]}, fmt.Sprintf("m%d: a sequence yields %s when first ranged over and %s when ranged over again", i, showKVs(first), showKVs(again)))
+			}
 		}
 		return showKVs(got)
 	case "mlen":
